@@ -623,4 +623,220 @@ Section Safe.
       + rewrite (Hwf eq_refl). cbn [scan_after].
         apply safe_st_hp0_deq. intros _. apply safe_faa_sync. intros _. apply Hr.
   Qed.
+
+  (** ** remove_head *)
+  Lemma safe_st_tail_none {R} t l (k : V -> prog R) Q :
+    (forall v, safe t (k v) l Q) -> safe t (Act (a_st_tail None) k) l Q.
+  Proof.
+    intros Hk. apply safe_act. intros g a tr HI Hv. unfold aview in Hv. cbn [a_st_tail fst snd]. rewrite tag1.
+    exists (upd a t (a t)). split; [|split; [apply frame_upd|]].
+    - apply Inv_st_tail; auto. discriminate.
+    - rewrite aview_upd_same, Hv. apply Hk.
+  Qed.
+
+  (** m_pHead.store( front of the list, or null when the list is empty ) by the lock holder *)
+  Lemma safe_st_head_locked {R} t idx l n ph (k : V -> prog R) Q :
+    (forall v, safe t (k v) (mkV false idx (Some (l, n)) ph) Q) ->
+    safe t (Act (a_st_head (hd_opt l)) k) (mkV false idx (Some (l, n)) ph) Q.
+  Proof.
+    intros Hk. apply safe_act. intros g a tr HI Hv. unfold aview in Hv. cbn [a_st_head fst snd]. rewrite tag1.
+    destruct (lock_facts _ _ _ _ _ _ _ _ _ HI Hv) as (_ & El & En).
+    exists (upd a t (mkV false idx (Some (l, n)) ph)). split; [|split; [apply frame_upd|]].
+    - pose proof (Inv_st_head qf g a tr t (hd_opt l) false HI) as K. use_view K Hv. apply K.
+      + discriminate.
+      + intros s E. destruct l as [|f r]; [discriminate|]. cbn in E. inversion E; subst s.
+        destruct (slist_front _ _ _ _ (inv_si _ _ _ _ HI) El) as (-> & _). lia.
+      + intros E. destruct l; [exact El|discriminate].
+      + discriminate.
+    - rewrite aview_upd_same. apply Hk.
+  Qed.
+
+  (** guard.assign( front of the list or null ) by the lock holder: the dequeuer's segment is the new front *)
+  Lemma safe_st_hp1_front {R} t idx l n Sn sg vis hn emp hp0 cur h (k : V -> prog R) Q :
+    (forall v, safe t (k v) (mkV false idx (Some (l, n)) (PDeq Sn (hd_opt l) [] false (emp || is_nil l) hp0 None)) Q) ->
+    safe t (Act (a_st_hp t 1 h) k) (mkV false idx (Some (l, n)) (PDeq Sn sg vis hn emp hp0 cur)) Q.
+  Proof.
+    intros Hk. apply safe_act. intros g a tr HI Hv. unfold aview in Hv. cbn [a_st_hp fst snd]. rewrite tag1.
+    destruct (lock_facts _ _ _ _ _ _ _ _ _ HI Hv) as (_ & El & En).
+    exists (upd a t (mkV false idx (Some (l, n)) (PDeq Sn (hd_opt l) [] false (emp || is_nil l) hp0 None))). split; [|split; [apply frame_upd|]].
+    - pose proof (Inv_view qf g a tr t (set_hp g t 1 h) KSt (obj_hp t 1) true (PDeq Sn (hd_opt l) [] false (emp || is_nil l) hp0 None) HI) as K.
+      use_view K Hv. apply K; clear K.
+      + repeat split; auto.
+      + intros t' N. cbn. destruct (Nat.eqb_spec t' t); [contradiction|reflexivity].
+      + discriminate.
+      + pose proof (deq_own g a tr t (set_hp g t 1 h) KSt (obj_hp t 1) true _ _ _ _ _ _ _ _ _ _ HI Hv ltac:(repeat split; auto)) as P.
+        pose proof (vi_ph _ _ _ _ (inv_vi _ _ _ _ HI t)) as P0. rewrite Hv in P0.
+        rewrite hp_st_other in P by discriminate. rewrite (PH_deq_hp0 _ _ _ _ _ _ _ _ _ _ _ P0) in P.
+        eapply PH_deq_reset; [exact P| |].
+        * intros s E. change (s <= lo g). destruct l as [|f r]; [discriminate|]. cbn in E. inversion E; subst s.
+          destruct (slist_front _ _ _ _ (inv_si _ _ _ _ HI) El) as (-> & _). lia.
+        * intros E. apply orb_true_iff in E. destruct E as [E|E]; [left; exact E|right].
+          destruct l; [|discriminate]. intros y Hy. apply (marked_ext g (set_hp g t 1 h)); [intros ? ?; reflexivity|].
+          eapply all_marked_when_empty; [apply (inv_si _ _ _ _ HI)|exact El|].
+          cbn in P0. destruct P0 as (_ & _ & S2 & _). auto.
+      + apply taker_iff_ph; [discriminate|cbn; discriminate].
+    - rewrite aview_upd_same. apply Hk.
+  Qed.
+
+  Lemma safe_pop {R} t idx f rest n Sn vis emp hp0 cur h (k : V -> prog R) Q :
+    covers qf vis ->
+    (forall v, safe t (k v) (mkV false idx (Some (rest, n)) (PDeq Sn (hd_opt rest) [] false (emp || is_nil rest) hp0 None)) Q) ->
+    safe t (Act (a_pop_st_hp t 1 h) k) (mkV false idx (Some (f :: rest, n)) (PDeq Sn (Some f) vis false emp hp0 cur)) Q.
+  Proof.
+    intros Hc Hk. apply safe_act. intros g a tr HI Hv. unfold aview in Hv. cbn [a_pop_st_hp fst snd]. rewrite tag1.
+    exists (upd a t (mkV false idx (Some (rest, n)) (PDeq Sn (hd_opt rest) [] false (emp || is_nil rest) hp0 None))). split; [|split; [apply frame_upd|]].
+    - pose proof (Inv_pop qf g a tr t f rest n Sn vis emp hp0 cur h HI) as K. use_view K Hv. apply K; auto.
+    - rewrite aview_upd_same. apply Hk.
+  Qed.
+
+  Lemma safe_ld_ret {R} t s (k : V -> prog R) l Q : (forall v, safe t (k v) l Q) -> safe t (Act (a_ld_ret t s) k) l Q.
+  Proof. intros H. apply safe_silent; auto using silent_ld_ret. Qed.
+  Lemma safe_st_ret {R} t (k : V -> prog R) l Q : (forall v, safe t (k v) l Q) -> safe t (Act (a_st_ret t) k) l Q.
+  Proof. intros H. apply safe_silent; auto using silent_st_ret. Qed.
+
+  Lemma safe_remove_head fuel t idx Sn s vis emp hp0 :
+    covers qf vis ->
+    safe t (remove_head fuel t 1 s) (deq_view idx Sn (Some s) vis false emp hp0 None) (Qprot_deq idx Sn hp0).
+  Proof.
+    intros Hc. unfold remove_head. apply Conc.safe_bind.
+    eapply Conc.safe_weaken; [|apply safe_lock_loops].
+    intros [[l n]|] vw Hq; cbn in Hq; [subst vw|exact I].
+    assert (Hend : forall p emp', (p = None -> emp' = true) ->
+              safe t (Ret (Some p)) (mkV false idx None (PDeq Sn p [] false emp' hp0 None)) (Qprot_deq idx Sn hp0)).
+    { intros p emp' H. cbn. exists emp'. split; [reflexivity|exact H]. }
+    destruct l as [|f rest].
+    - apply safe_st_tail_none. intros _. apply (safe_st_head_locked t idx [] n). intros _.
+      apply safe_st_hp1_front. intros _. apply safe_unlock. intros _. apply Hend. intros _. apply orb_true_r.
+    - destruct (Nat.eqb s f) eqn:Ef; cbn [negb].
+      + apply Nat.eqb_eq in Ef. subst f.
+        assert (Hret : forall p emp', (p = None -> emp' = true) ->
+                  safe t (Act a_unlock (fun _ => Act (a_ld_ret t s) (fun _ => Act (a_st_ret t) (fun _ => Ret (Some p)))))
+                    (mkV false idx (Some (rest, n)) (PDeq Sn p [] false emp' hp0 None)) (Qprot_deq idx Sn hp0)).
+        { intros p emp' H. apply safe_unlock. intros _. apply safe_ld_ret. intros _. apply safe_st_ret. intros _. apply Hend. exact H. }
+        destruct rest as [|f2 r2].
+        * apply safe_pop; [exact Hc|]. intros _. apply safe_st_tail_none. intros _.
+          apply (safe_st_head_locked t idx [] n). intros _. apply Hret. intros _. apply orb_true_r.
+        * apply safe_pop; [exact Hc|]. intros _. apply safe_faa_sync. intros _.
+          apply (safe_st_head_locked t idx (f2 :: r2) n). intros _. apply Hret. discriminate.
+      + apply (safe_st_head_locked t idx (f :: rest) n). intros _. unfold assign_seg.
+        apply safe_st_hp1_front. intros _. apply safe_faa_sync. intros _. apply safe_unlock. intros _. apply Hend. discriminate.
+  Qed.
+
+  (** ** do_dequeue / dequeue *)
+  Definition Qrounds idx Sn : rounds_res -> view -> Prop :=
+    fun r vw => match r with
+      | RFuel => True
+      | RGot x => vw = mkV false idx None (PGot x false)
+      | REmpty => exists sg vis hn emp hp0, vw = deq_view idx Sn sg vis hn emp hp0 None /\
+                    (emp = true \/ (hn = true /\ sg <> None /\ covers qf vis))
+      end.
+
+  Lemma safe_fas_cnt {R} t (k : V -> prog R) l Q :
+    (forall v, safe t (k v) l Q) -> safe t (Act a_fas_cnt k) l Q.
+  Proof. intros H. apply safe_silent; auto using silent_fas_cnt. Qed.
+
+  Lemma safe_deq_rounds lfuel t idx Sn ord :
+    (forall r, perm_ok (ord r)) ->
+    forall fuel r ph emp hp0, (ph = None -> emp = true) ->
+    safe t (deq_rounds fuel lfuel t ord r ph) (deq_view idx Sn ph [] false emp hp0 None) (Qrounds idx Sn).
+  Proof.
+    intros Hord. induction fuel as [|f IH]; intros r ph emp hp0 Hemp; cbn [deq_rounds]; [exact I|].
+    destruct ph as [s|].
+    - apply Conc.safe_bind. eapply Conc.safe_weaken; [|apply (safe_deq_scan t idx Sn s emp (ord r))].
+      + intros [x|hn'] vw Hq; cbn in Hq.
+        * subst vw. apply safe_fas_cnt. intros _. reflexivity.
+        * destruct Hq as (vis' & hp0' & -> & Hc). 
+          assert (Hcov : covers qf vis') by (intros i Hi; apply Hc; apply (proj2 (Hord r i)); exact Hi).
+          destruct hn'.
+          -- cbn. exists (Some s), vis', true, emp, hp0'. split; [reflexivity|]. right. repeat split; auto. discriminate.
+          -- apply Conc.safe_bind. eapply Conc.safe_weaken; [|apply safe_remove_head; exact Hcov].
+             intros [ph'|] vw Hq; cbn in Hq; [|exact I]. destruct Hq as (emp' & -> & He). apply IH. exact He.
+      + intros i Hi. apply (proj1 (Hord r i)). exact Hi.
+      + intros i Hi. right. exact Hi.
+    - cbn. exists None, [], false, emp, hp0. split; [reflexivity|]. left. auto.
+  Qed.
+
+  Lemma PH_deq_emp g tr t idx Sn sg vis hn emp hp0 :
+    SI qf g ->
+    PH g tr t idx (PDeq Sn sg vis hn emp hp0 None) ->
+    (emp = true \/ (hn = true /\ sg <> None /\ covers qf vis)) ->
+    PH g tr t idx (PDeq Sn sg vis hn true hp0 None).
+  Proof.
+    intros HS. cbn [PH]. intros (P1 & P2 & P3 & P4 & P5 & P6 & P7 & P8 & P9) Hor.
+    split; [exact P1|]. split; [exact P2|]. split; [exact P3|]. split; [exact P4|]. split; [exact P5|].
+    split; [exact P6|]. split; [|split; [exact P8|exact P9]].
+    intros _ y Hy. destruct Hor as [E|(Hn & Hs & Hc)]; [auto|].
+    destruct sg as [s|]; [|congruence].
+    destruct (P3 y Hy) as (sy & iy & K). exists sy, iy.
+    destruct (si_range _ _ HS sy iy) as (L1 & L2); [rewrite K; discriminate|].
+    pose proof (P6 Hn s eq_refl y sy iy Hy K) as Le.
+    assert (M : cmark g sy iy = true).
+    { destruct (Nat.eq_dec sy s) as [->|N].
+      - destruct (P5 s iy eq_refl (Hc iy L2)) as [M|[_ M]]; [exact M|]. exfalso. eapply M; eauto.
+      - apply (si_exh _ _ HS); [|exact L2]. specialize (P4 s eq_refl). lia. }
+    unfold cptr, cmark in *. destruct (cells g sy iy); cbn in *; subst; reflexivity.
+  Qed.
+
+  Lemma safe_st_hp1_emp {R} t idx Sn sg vis hn emp hp0 h (k : V -> prog R) Q :
+    (emp = true \/ (hn = true /\ sg <> None /\ covers qf vis)) ->
+    (forall v, safe t (k v) (deq_view idx Sn sg vis hn true hp0 None) Q) ->
+    safe t (Act (a_st_hp t 1 h) k) (deq_view idx Sn sg vis hn emp hp0 None) Q.
+  Proof.
+    intros Hor Hk. apply safe_act. intros g a tr HI Hv. unfold aview, deq_view in Hv. cbn [a_st_hp fst snd]. rewrite tag1.
+    exists (upd a t (deq_view idx Sn sg vis hn true hp0 None)). split; [|split; [apply frame_upd|]].
+    - pose proof (Inv_view qf g a tr t (set_hp g t 1 h) KSt (obj_hp t 1) true (PDeq Sn sg vis hn true hp0 None) HI) as K.
+      use_view K Hv. apply K; clear K.
+      + repeat split; auto.
+      + intros t' N. cbn. destruct (Nat.eqb_spec t' t); [contradiction|reflexivity].
+      + discriminate.
+      + pose proof (deq_own g a tr t (set_hp g t 1 h) KSt (obj_hp t 1) true _ _ _ _ _ _ _ _ _ _ HI Hv ltac:(repeat split; auto)) as P.
+        pose proof (vi_ph _ _ _ _ (inv_vi _ _ _ _ HI t)) as P0. rewrite Hv in P0.
+        rewrite hp_st_other in P by discriminate. rewrite (PH_deq_hp0 _ _ _ _ _ _ _ _ _ _ _ P0) in P.
+        eapply PH_deq_emp; [|exact P|exact Hor].
+        eapply SI_ext; [apply (inv_si _ _ _ _ HI)|repeat split; auto].
+      + apply taker_iff_ph; [discriminate|cbn; discriminate].
+    - rewrite aview_upd_same. apply Hk.
+  Qed.
+
+  (** itemGuard.get(): the dequeuer reads back the pointer it protected *)
+  Lemma safe_ld_hp_got {R} t idx x (k : V -> prog R) Q :
+    safe t (k (VH (HItem x))) (mkV false idx None (PGot x true)) Q ->
+    safe t (Act (a_ld_hp t 0) k) (mkV false idx None (PGot x false)) Q.
+  Proof.
+    intros Hk. apply safe_act. intros g a tr HI Hv. unfold aview in Hv. cbn [a_ld_hp fst snd]. rewrite tag1.
+    pose proof (vi_ph _ _ _ _ (inv_vi _ _ _ _ HI t)) as P0. rewrite Hv in P0. cbn in P0. destruct P0 as (P1 & P2 & P3).
+    rewrite (P3 eq_refl).
+    exists (upd a t (mkV false idx None (PGot x true))). split; [|split; [apply frame_upd|]].
+    - pose proof (Inv_view qf g a tr t g KLd (obj_hp t 0) true (PGot x true) HI) as K.
+      use_view K Hv. apply K; clear K.
+      + repeat split; auto.
+      + auto.
+      + discriminate.
+      + cbn. split; [apply in_evs_snoc; auto|]. split; [exact P2|discriminate].
+      + intros y. unfold taker. cbn. split; intros (rd & E); inversion E; eauto.
+    - rewrite aview_upd_same. exact Hk.
+  Qed.
+
+  Definition Qdeq idx Sn : deq_res -> view -> Prop :=
+    fun r vw => match r with
+      | DFuel => True
+      | DEmpty => exists sg vis hn hp0 cur, vw = deq_view idx Sn sg vis hn true hp0 cur
+      | DGot h => exists x, h = HItem x /\ vw = mkV false idx None (PGot x true)
+      end.
+
+  Lemma safe_dequeue fuel t idx Sn hp0 ord :
+    (forall r, perm_ok (ord r)) ->
+    safe t (dequeue fuel t ord) (deq_view idx Sn None [] false false hp0 None) (Qdeq idx Sn).
+  Proof.
+    intros Hord. unfold dequeue. apply Conc.safe_bind.
+    eapply Conc.safe_weaken; [|apply safe_protect_head].
+    intros [ph|] vw Hq; cbn in Hq; [|exact I]. destruct Hq as (emp & -> & He).
+    apply Conc.safe_bind. eapply Conc.safe_weaken; [|apply safe_deq_rounds; [exact Hord|exact He]].
+    intros [| |x] vw Hq; cbn in Hq.
+    - exact I.
+    - destruct Hq as (sg & vis & hn & emp' & hp0' & -> & Hor).
+      apply safe_st_hp1_emp; [exact Hor|]. intros _. apply safe_st_hp0_deq. intros _. cbn. eauto 10.
+    - subst vw. apply safe_silent; [apply silent_st_hp|left; intros g; apply hp_st_other; discriminate|].
+      intros _. apply safe_ld_hp_got. apply safe_st_hp_free; [exact I|]. intros _. cbn. eauto.
+  Qed.
 End Safe.
